@@ -48,7 +48,14 @@ type c19Op struct {
 	Data string `json:"data,omitempty"`
 }
 
+// c19Link is a symbolic link below a file-system root: to a regular file (a template), to a directory (not one) or to nothing.
+type c19Link struct {
+	Path   string `json:"path"`
+	Target string `json:"target"` // absolute within the tree; "" = dangling
+}
+
 type c19Layer struct {
+	Links []c19Link `json:"links,omitempty"`
 	Root  int               `json:"root,omitempty"` // how the loader's root directory is spelt (os, embed)
 	Kind  string            `json:"kind"`           // inmem | os | http | embed
 	Files map[string]string `json:"files,omitempty"`
@@ -149,6 +156,50 @@ func genLayer(t *rapid.T, label string, kinds []string) c19Layer {
 	if k != "embed" {
 		l.Files, l.Dirs = genTree(t, label)
 	}
+	if k == "os" || k == "http" {
+		var files []string
+		for p := range l.Files {
+			files = append(files, p)
+		}
+		sort.Strings(files)
+		for n := rapid.IntRange(0, 2).Draw(t, label+"Links"); n > 0; n-- {
+			ln := c19Link{Path: "/" + rapid.SampledFrom([]string{"lnk1", "lnk2.jet", "a_link"}).Draw(t, label+"LinkName")}
+			switch rapid.IntRange(0, 2).Draw(t, label+"LinkKind") {
+			case 0:
+				if len(files) > 0 {
+					ln.Target = files[rapid.IntRange(0, len(files)-1).Draw(t, label+"LinkFile")]
+				}
+			case 1:
+				if len(l.Dirs) > 0 {
+					ln.Target = l.Dirs[0]
+				} else if len(files) > 0 && strings.Count(files[0], "/") > 1 {
+					ln.Target = filepath.ToSlash(filepath.Dir(files[0]))
+				}
+			}
+			if _, clash := l.Files[ln.Path]; clash {
+				continue
+			}
+			dup := false
+			for _, o := range l.Links {
+				if o.Path == ln.Path {
+					dup = true
+				}
+			}
+			for _, d := range l.Dirs {
+				if d == ln.Path || strings.HasPrefix(d, ln.Path+"/") {
+					dup = true
+				}
+			}
+			for p := range l.Files {
+				if strings.HasPrefix(p, ln.Path+"/") {
+					dup = true
+				}
+			}
+			if !dup {
+				l.Links = append(l.Links, ln)
+			}
+		}
+	}
 	return l
 }
 
@@ -173,6 +224,9 @@ func universe(layers []c19Layer) []string {
 		for _, d := range l.Dirs {
 			add(d)
 		}
+		for _, ln := range l.Links {
+			add(ln.Path)
+		}
 	}
 	var out []string
 	for p := range set {
@@ -188,10 +242,10 @@ func genC19(t *rapid.T) c19Case {
 		c := c19Case{Kind: "inmem"}
 		n := rapid.IntRange(1, 12).Draw(t, "nops")
 		for i := 0; i < n; i++ {
-			op := rapid.SampledFrom([]string{"set", "set", "delete", "exists", "open", "open"}).Draw(t, "op")
+			op := rapid.SampledFrom([]string{"set", "set", "delete", "exists", "open", "open", "open-then-set"}).Draw(t, "op")
 			o := c19Op{Op: op, Path: genSpelling(t, "p")}
-			if op == "set" {
-				o.Data = rapid.SampledFrom([]string{"", "A", "B", "content " + fmt.Sprint(i)}).Draw(t, "data")
+			if op == "set" || op == "open-then-set" {
+				o.Data = rapid.SampledFrom([]string{"", "A", "B", "content " + fmt.Sprint(i), "a much longer content than the others " + fmt.Sprint(i)}).Draw(t, "data")
 			}
 			c.Ops = append(c.Ops, o)
 		}
@@ -254,12 +308,30 @@ func buildLayer(l c19Layer, tmpRoot string, idx int) (jet.Loader, map[string]str
 			return nil, nil, err
 		}
 	}
+	// symbolic links: the model follows them like Open does - a link to a regular file is that template,
+	// a link to a directory or to nothing is not a template
+	model := map[string]string{}
+	for p, c := range l.Files {
+		model[p] = c
+	}
+	for _, ln := range l.Links {
+		target := filepath.Join(root, filepath.FromSlash(ln.Target))
+		if ln.Target == "" {
+			target = filepath.Join(root, "no-such-target")
+		}
+		if err := os.Symlink(target, filepath.Join(root, filepath.FromSlash(ln.Path))); err != nil {
+			return nil, nil, err
+		}
+		if c, ok := l.Files[ln.Target]; ok {
+			model[ln.Path] = c
+		}
+	}
 	if l.Kind == "os" {
 		spelt := []string{root, root + "/", filepath.Dir(root) + "/./" + filepath.Base(root), root + "/sub/..", root + "//"}[l.Root%5]
-		return jet.NewOSFileSystemLoader(spelt), l.Files, nil
+		return jet.NewOSFileSystemLoader(spelt), model, nil
 	}
 	hl, err := httpfs.NewLoader(http.Dir(root))
-	return hl, l.Files, err
+	return hl, model, err
 }
 
 func judgeC19(c c19Case) (v core.Verdict) {
@@ -283,6 +355,25 @@ func judgeC19(c c19Case) (v core.Verdict) {
 					differs = true
 				}
 				delete(model, np)
+			case "open-then-set":
+				// a reader obtained before an edit keeps yielding what was stored when it was opened
+				want, has := model[np]
+				rc, err := l.Open(op.Path)
+				l.Set(op.Path, op.Data)
+				model[np] = op.Data
+				stored[np] = op.Path
+				if has != (err == nil) {
+					v.Failf("InMemLoader after %v: Open(%q) err=%v, model says stored=%v", c.Ops[:i], op.Path, err, has)
+					return
+				}
+				if has {
+					b, _ := io.ReadAll(rc)
+					rc.Close()
+					if string(b) != want {
+						v.Failf("InMemLoader after %v: a reader opened before Set(%q, %q) yields %q; %q was stored when it was opened", c.Ops[:i], op.Path, op.Data, b, want)
+						return
+					}
+				}
 			case "exists", "open":
 				want, has := model[np]
 				if sp, ok := stored[np]; ok && sp != op.Path {
